@@ -248,6 +248,10 @@ def check_bank(seq):
                     'what': where + ' report disagrees with the treebank'})
     srcfmt = ['export', 'tigerxml', 'discobrackets'][sum(seq) % 3]
     path = os.path.join(scratch(), 'bank.' + srcfmt)
+    if sum(seq) % 2 == 1:
+        # a path with blanks, non-ASCII and glob characters
+        os.makedirs(os.path.join(scratch(), 'neg ra [v2] \u00fc'), exist_ok=True)
+        path = os.path.join(scratch(), 'neg ra [v2] \u00fc', 'part[1] *?.' + srcfmt)
     with open(path, 'w', encoding='utf-8') as f:
         f.write({'export': codecs.encode_export, 'tigerxml': lambda m: codecs.encode_tigerxml(m, secedges=True, head=True),
                  'discobrackets': codecs.encode_discobrackets}[srcfmt](mts))
